@@ -576,7 +576,10 @@ func (r *Reader) MarkdownWithOptions(opts ExtractOptions) (string, error) {
 		for col := minCol; col <= maxCol; col++ {
 			result.WriteString(" ")
 			if minRow < len(sheet.Rows) && col < len(sheet.Rows[minRow]) {
-				result.WriteString(escapeMarkdown(sheet.Rows[minRow][col].Value))
+				cell := sheet.Rows[minRow][col]
+				if !cell.IsMerged || cell.IsMergeRoot {
+					result.WriteString(escapeMarkdown(cell.Value))
+				}
 			}
 			result.WriteString(" |")
 		}
@@ -758,6 +761,10 @@ func (r *Reader) Document() (*model.Document, error) {
 					Text:    cell.Value,
 					RowSpan: cell.MergeRows,
 					ColSpan: cell.MergeCols,
+				}
+				// For merged cells, only the root cell carries the value
+				if cell.IsMerged && !cell.IsMergeRoot {
+					modelCell.Text = ""
 				}
 
 				// Mark first row as headers
